@@ -318,6 +318,51 @@ func TestSchemaRespelling(t *testing.T) {
 	})
 }
 
+// Texts with notes in places where they are (mostly) not taken - on the line after an annotated
+// line: whatever Check says about such a text, it says the same when only line ends, indentation
+// and blank lines change.
+func TestMisplacedNotesAcrossLayouts(t *testing.T) {
+	run.SkipIfReplaying(t)
+	defer run.Done(t, chkSchema)
+	rapid.Check(t, func(t *rapid.T) {
+		model := gen.RuledTree(t, rapid.IntRange(1, 3).Draw(t, "depth"), false, "m")
+		base := func() *gen.Style {
+			st := gen.DefaultStyle()
+			st.StrayNotes, st.StrayAnywhere = 1, true
+			st.AutoNotes = 1 // every value has a note, so every stray note follows an annotated line
+			return st
+		}
+		a, b := base(), base()
+		var names []string
+		if rapid.Bool().Draw(t, "nl") {
+			b.NL = rapid.SampledFrom([]string{"\r\n", "\r"}).Draw(t, "newline")
+			names = append(names, "newline")
+		}
+		if rapid.Bool().Draw(t, "ind") {
+			b.Indent = rapid.SampledFrom([]string{"", " ", "\t", "    "}).Draw(t, "indent")
+			names = append(names, "indent")
+		}
+		if rapid.Bool().Draw(t, "bl") {
+			b.BlankLines = true
+			names = append(names, "blank-lines")
+		}
+		if len(names) == 0 {
+			b.NL, names = "\r\n", []string{"newline"}
+		}
+		c := SchemaCase{A: lib.Spec{Schema: string(gen.PrintSchema(model, a))}, B: lib.Spec{Schema: string(gen.PrintSchema(model, b))}, Rewrite: append(names, "misplaced-notes-in-both")}
+		if ex, ok := gen.ExampleJSON(model); ok {
+			c.Docs = append(c.Docs, string(ex))
+		}
+		accepted := checkSchema(t, c)
+		run.Eval(chkSchema, true, c.A.Schema, c.B.Schema)
+		if accepted {
+			run.Label("misplaced-notes:accepted-in-both")
+		} else {
+			run.Label("misplaced-notes:rejected-in-both")
+		}
+	})
+}
+
 func TestDocumentRespelling(t *testing.T) {
 	run.SkipIfReplaying(t)
 	defer run.Done(t, chkDoc)
